@@ -24,7 +24,7 @@ def unit_ranges(bm):
 
 def classify(msg):
     m = msg.lower()
-    if 'postcondition not satisfied' in m:
+    if 'postcondition not satisfied' in m or 'unable to prove post-condition of closure' in m:
         return 'ensures'
     if 'precondition not satisfied' in m:
         return 'requires-at-call'
